@@ -121,6 +121,12 @@ def check(ctx, want="C12"):
         for k in range(nrun):
             workers = [1, 2, 3, 4][k % 4]
             jobs.append(make_job(ctx, proto, workers, ctx.seed * 1000 + k, 60 if thorough else 24))
+    # mirroring enabled (ipfix and sflow have it): the copies taken by the mirror workers, and the mirror queue full
+    for proto in ("ipfix", "sflow"):
+        for k, mode in enumerate(["on", "full"] * (3 if thorough else 1)):
+            j = make_job(ctx, proto, [2, 3, 1, 4][k % 4], ctx.seed * 1000 + 500 + k, 40 if thorough else 24)
+            j["mirror"] = mode
+            jobs.append(j)
     for i, j in enumerate(jobs):
         j["id"] = i
     with concurrent.futures.ThreadPoolExecutor(max_workers=8) as ex:
@@ -129,8 +135,8 @@ def check(ctx, want="C12"):
     index = []
     for job, r in zip(jobs, results):
         proto = job["proto"]
-        ctx.count([proto, job["workers"], job["seed"], len(job["data"])])
-        case = {"proto": proto, "workers": job["workers"], "seed": job["seed"], "datagrams": len(job["data"])}
+        ctx.count([proto, job["workers"], job["seed"], len(job["data"]), job.get("mirror", "")])
+        case = {"proto": proto, "workers": job["workers"], "seed": job["seed"], "datagrams": len(job["data"]), "mirror": job.get("mirror", "")}
         if "crash" in r:
             why = next((l for l in r["crash"].split("\n") if l.startswith(("panic:", "fatal error:"))), r["crash"][-300:])
             if r.get("timeout"):
@@ -155,7 +161,9 @@ def check(ctx, want="C12"):
         for k, e in enumerate(r["events"]):
             rows.append(e)
             index.append((job, e))
-            if e["ev"] in ("Deq", "Consume", "Probe", "Gone"):
+            kinds = ctx.extra.setdefault("trace_events_by_kind", {})
+            kinds[e["ev"]] = kinds.get(e["ev"], 0) + 1
+            if e["ev"] in ("Deq", "Consume", "Probe", "Gone", "MirOut"):
                 # one evaluation per datagram a real worker took, per message the producer took, per pool probe
                 ctx.count([proto, job["workers"], job["seed"], k, e["ev"], e.get("d"), e.get("p")], nontrivial=e["ev"] != "Probe" or bool(e.get("got")))
     out = ctx.tlc("PipelineTrace", "PipelineTrace.cfg", workers=1, timeout=1500, heap="6g",
